@@ -207,4 +207,10 @@ theorem tramp_return_code : ∃ tail, codeFrom trampCode 12 = some tail ∧
   simp [exec, step, Instr.isTransfer, State.wr, upd, al_sub]
   intro a h; simp [h]
 
+/-- What the System V AMD64 ABI promises about a function that was entered in state `e` (return address on top
+    of the stack) and returns `v`: control is at that return address, the stack pointer is one word above its
+    value at entry, the callee-saved registers are as at entry, `rax = v`.  (Trusted: the C compiler.) -/
+def SysVReturn (e t : State) (v : W) : Prop :=
+  t.rip = e.mem e.rsp ∧ t.rsp = e.rsp + 8#64 ∧ (∀ r ∈ calleeSaved, t.get r = e.get r) ∧ t.rax = v
+
 end CimbaModel.Ctx
